@@ -83,10 +83,16 @@ func (w *World) Exec(op hx.Zs) []hx.Zs {
 // order of the sequential composition that models the overlap.
 func (w *World) execOverlap(op hx.Zs) []hx.Zs {
 	n := int(op[1])
-	if n < 2 || 2+n+3 > len(op) {
+	if n < 2 || 2+n+2 > len(op) {
 		return nil
 	}
 	td, call := op[2:2+n], op[2+n:]
+	if td[0] == 11 && call[0] == 13 {
+		return w.execRound(td, call)
+	}
+	if len(call) < 3 {
+		return nil
+	}
 	isDel := td[0] == 8 || td[0] == 10 // a delete call of p, parked inside the registry's critical section
 	okTd := td[0] == 13 || td[0] == 6 || td[0] == 5 || isDel
 	okCall := call[0] >= 7 && call[0] <= 10
@@ -465,4 +471,135 @@ func (w *World) wireListing(p int64, sub bool) ([]hx.Zs, bool) {
 		}
 	}
 	return out, answered
+}
+
+// execRound: operation 22 with a local data change and Disconnect p (coq/Model/StackX.v
+// round_overlap).  The change runs on its own goroutine; the first write of its notification round to
+// a peer other than p is held inside that peer's connection writer; meanwhile p is disconnected, the
+// teardown runs to its end; then the write is released and the round finishes.  Model: the change,
+// then the disconnect.  Canonical projection of the observations:
+//   - the notifications of the round in the order of the subscription list taken before the round
+//     (the order the model writes them in); notifications that match no entry follow;
+//   - what the round wrote to p itself is not prescribed (p is being removed: the unchanged code still
+//     writes to its connection object, a round that skips p would be just as good): it is replaced by
+//     one notification per subscription entry of p, with the content of the round's other
+//     notifications;
+//   - then the observations of the disconnect (events of connection p).
+//
+// Without a held write (nobody else subscribed, nothing to notify) the two operations simply run one
+// after the other and nothing is replaced.
+func (w *World) execRound(change, disc hx.Zs) []hx.Zs {
+	p := disc[1]
+	r := &rd{z: change}
+	_, f, _, _ := r.n(), r.n(), r.n(), r.n()
+	e := r.eaddr()
+	fl := w.localFeature(e, f)
+	pr := w.peers[p]
+	if fl == nil || pr == nil || pr.gone {
+		ret := w.execOp(change)
+		out := append(w.drain(11), ret...)
+		ret = w.execOp(disc)
+		return append(append(out, w.drain(13)...), ret...)
+	}
+	type ent struct {
+		ski int64
+		dst FAddr
+	}
+	var order []ent
+	for _, s := range w.local.SubscriptionManager().SubscriptionsOnFeature(*fl.Address()) {
+		order = append(order, ent{skiNum(s.ClientFeature.Device().Ski()), fromFeatureAddr(s.ClientFeature.Address())})
+	}
+	pk := &parkedWrite{except: p, parked: make(chan struct{}), release: make(chan struct{})}
+	w.park.Store(pk)
+	var ret1 []hx.Zs
+	done := make(chan struct{})
+	go func() {
+		ret1 = w.execOp(change)
+		close(done)
+	}()
+	held := false
+	select {
+	case <-pk.parked:
+		held = true
+	case <-done:
+	}
+	if !held {
+		w.park.Store(nil)
+		ovCount("round-without-held-write")
+		out := append(w.drain(11), ret1...)
+		ret := w.execOp(disc)
+		return append(append(out, w.drain(13)...), ret...)
+	}
+	ret2 := w.execOp(disc) // the teardown of p, start to end, while the round is held
+	w.park.Store(nil)
+	close(pk.release)
+	select {
+	case <-done:
+	case <-time.After(10 * time.Second):
+		ret1 = append(ret1, hx.Zs{94})
+	}
+	ovCount("disconnect-delivered-inside-notification-round")
+	all := w.drain(22)
+	var notifs, others, second []hx.Zs
+	for _, o := range all {
+		switch {
+		case len(o) >= 2 && o[0] == 2 && o[1] == p: // written to p by the round: not prescribed
+		case len(o) >= 2 && o[0] == 2:
+			notifs = append(notifs, o)
+		case fromPeer(p, o):
+			second = append(second, o)
+		default:
+			others = append(others, o)
+		}
+	}
+	var first []hx.Zs
+	if len(notifs) > 0 {
+		tmpl := notifs[0] // [2 ski fn v src... dst...]
+		srcEnd := 4 + len(fromFeatureAddr(fl.Address()).enc())
+		used := make([]bool, len(notifs))
+		for _, en := range order {
+			if en.ski == p {
+				z := append(hx.Zs{2, p}, tmpl[2:srcEnd]...)
+				first = append(first, append(z, en.dst.enc()...))
+				continue
+			}
+			for i, o := range notifs {
+				if !used[i] && o[1] == en.ski && sameZs(o[srcEnd:], en.dst.enc()) {
+					used[i] = true
+					first = append(first, o)
+					break
+				}
+			}
+		}
+		for i, o := range notifs {
+			if !used[i] {
+				first = append(first, o)
+			}
+		}
+	}
+	first = append(append(first, others...), ret1...)
+	return append(append(first, second...), ret2...)
+}
+
+func sameZs(a, b hx.Zs) bool {
+	if len(a) != len(b) {
+		return false
+	}
+	for i := range a {
+		if a[i] != b[i] {
+			return false
+		}
+	}
+	return true
+}
+
+// fromPeer: an event of connection p or a result written to p (coq/Model/StackX.v from_peer)
+func fromPeer(p int64, o hx.Zs) bool {
+	switch {
+	case len(o) >= 2 && o[0] == 1:
+		return o[1] == p
+	case len(o) >= 4 && o[0] == 5:
+		return o[3] == p
+	}
+	return false
 }
